@@ -164,6 +164,16 @@ def run(ctx, prop):
     work.append(("raw", {"id": "C06-empty", "main": "main.idl", "incdirs": [], "files": [{"path": "main.idl", "nodes": [
         {"k": "struct", "name": "Tag", "fields": []},
         {"k": "struct", "name": "Hdr", "fields": [{"type": "Tag", "count": 1, "name": "kind"}, {"type": "uint32", "count": 1, "name": "len"}]}]}]}))
+    # the last test of the verifier (size divisible by the widest alignment) when the widest
+    # alignment comes from a nested struct or an object member only
+    _sf = lambda t, n, c=1: {"type": t, "count": c, "name": n}
+    for k_, (fields_out, _ok) in enumerate(((["In8:i", "uint32:x"], False), (["In8:i", "uint32:x", "uint32:y"], True),
+                                             (["Hold:h", "uint64:z"], False), (["Hold:h", "uint64:z", "uint64:w"], True),
+                                             (["uint32:x", "uint32:y", "In8:i", "uint16:t"], False))):
+        work.append(("raw", {"id": f"C06-nested-align-{k_}", "main": "main.idl", "incdirs": [], "files": [{"path": "main.idl", "nodes": [
+            {"k": "struct", "name": "In8", "fields": [_sf("uint64", "a")]},
+            {"k": "struct", "name": "Hold", "fields": [_sf("interface", "o")]},
+            {"k": "struct", "name": "OutN", "fields": [_sf(f_.split(":")[0], f_.split(":")[1]) for f_ in fields_out]}]}]}))
     work += [("raw", permuted_case(i)) for i in range({"quick": 60, "thorough": 1500}[ctx.tier])]
     work += [("raw", raw_case(i)) for i in range({"quick": 150, "thorough": 3000}[ctx.tier])]
     hist["raw_rejected"] = 0
@@ -320,6 +330,11 @@ def run(ctx, prop):
                 else:
                     oracle_fail.append({"case": w, "failures": [{"error": "a struct that needs padding was accepted and emitted",
                                                                  "natural": natural(w, s), "assumed": packed(w, s)}]})
+    # ---- "the size it ... checks in skeletons": the guard literals of the emitted C and C++
+    # skeletons (object-bearing structs in both directions included) against the model
+    from .c04 import static_guard_pass
+    from .bench_props import split_padded
+    static_guard_pass(ctx, split_padded(gen.coverage_case("C06-guards"))[0], oracle_fail, disagree, hist)
     known_lines = []
     for kid, k in listed.items():
         if kid in known_seen:
